@@ -70,7 +70,9 @@ let do_rd cfgs hx =
          (int_of_cspace (decide_colorspace (z_of_int (zlen fr.f_comps)) h lossless ids)));
        List.iter (fun m -> Buffer.add_string b (Printf.sprintf " m %d %d %d %s ;" (int_of_z m.sm_code)
                                                  (int_of_z m.sm_orig) (zlen m.sm_data) (fnv m.sm_data))) hd.hd_saved;
-       Buffer.add_string b (" | " ^ icc_str (read_icc hd.hd_saved));
+       (* more than 30 ICC markers: the proved-equal closed-form reader (C16_icc_read_fast_correct) *)
+       let nicc = List.length (List.filter marker_is_icc hd.hd_saved) in
+       Buffer.add_string b (" | " ^ icc_str (if nicc > 30 then read_icc_fast hd.hd_saved else read_icc hd.hd_saved));
        print_endline (Buffer.contents b)
      | _ -> print_endline "err")
 
@@ -115,6 +117,11 @@ let () = iter_lines (fun line ->
                 print_endline ("x" ^ String.concat "" (List.map (fun (c, d) ->
                     Printf.sprintf " m %d %d %s ;" (int_of_z c) (zlen d) (fnv d)) segs)))
        | _ -> print_endline "err")
+  | [ "iccms"; ms ] ->
+      (* marker list given directly: code:hex,...  (original_length = data length) *)
+      let l = List.map (fun (c, d) -> { sm_code = c; sm_orig = z_of_int (zlen d); sm_data = d }) (segs_of ms) in
+      let nicc = List.length (List.filter marker_is_icc l) in
+      print_endline (icc_str (if nicc > 30 then read_icc_fast l else read_icc l))
   | [ "subsamp"; cs; comps ] ->
       let cl = List.map (fun it -> match List.map int_of_string (String.split_on_char '.' it) with
           | [a; b] -> (z_of_int a, z_of_int b) | _ -> failwith "samp") (split_on ',' comps) in
